@@ -11,8 +11,8 @@ PROPS="$@"
 S=$(mktemp -d /tmp/gpmut.XXXXXX)
 trap 'rm -rf "$S"' EXIT
 mkdir -p $S/repo $S/ev
-git -C /repo archive HEAD | tar -x -C $S/repo
-if ! (cd $S/repo && git apply --whitespace=nowarn "$PATCH" 2>$S/apply.err || patch -p1 -s < "$PATCH" 2>>$S/apply.err); then
+rmdir $S/repo; git clone -q --shared /repo $S/repo
+if ! (cd $S/repo && git apply --3way --whitespace=nowarn "$PATCH" 2>$S/apply.err); then
   echo "PATCH-DOES-NOT-APPLY $PATCH"; cat $S/apply.err; exit 3
 fi
 TIER=${TIER:-quick}
